@@ -239,7 +239,24 @@ def _checked(op):
     return m
 
 
+def _saturating(op):
+    def m(eng, st, fr, t, args, dest, target):
+        a, b = eng.force(st, args[0]), eng.force(st, args[1])
+        unsigned = '<impl u' in (t['callee'].get('decl') or '')
+        r = eng.binop(st, op, a, b)
+        if unsigned and op == 'Sub':
+            if is_const(a) and is_const(b) and isinstance(cval(a), int) and isinstance(cval(b), int):
+                return C(a[1], max(0, cval(a) - cval(b)))
+            return ite(eng.binop(st, 'Ge', a, b), r, C(a[1] if is_const(a) else 'usize', 0))
+        return r          # saturation at the type's maximum is not modelled (magnitudes here are far below it)
+    return m
+
+
 import re as _re3
+for _w in ('u8', 'u16', 'u32', 'u64', 'usize', 'i8', 'i16', 'i32', 'i64', 'isize'):
+    for _pre in ('core', 'std'):
+        MODELS[f'{_pre}::num::<impl {_w}>::saturating_sub'] = _saturating('Sub')
+        MODELS[f'{_pre}::num::<impl {_w}>::saturating_add'] = _saturating('Add')
 for _w in ('u8', 'u16', 'u32', 'u64', 'usize', 'i8', 'i16', 'i32', 'i64', 'isize'):
     MODELS[f'core::num::<impl {_w}>::checked_sub'] = _checked('Sub')
     MODELS[f'std::num::<impl {_w}>::checked_sub'] = _checked('Sub')
@@ -1389,6 +1406,55 @@ def _recv(eng, st, fr, t, args, dest, target):
     lid = eng.enclosing_loop(fr)
     eng.event(st, 'recv', receiver=v, fn=fr.body.path, loop=lid)
     return ite(('iterhas', lid, ('recv', v)), OK(('iterval', lid, ('recv', v))), ERR(('app', 'RecvError', ())))
+
+
+@model('std::sync::mpsc::Receiver::<T>::recv_timeout', 'std::sync::mpsc::Receiver::<T>::try_recv')
+def _recv_timeout(eng, st, fr, t, args, dest, target):
+    # may fail although senders are still alive (timeout / empty): the condition is NOT the closed-channel condition
+    v = deref(eng, st, args[0])
+    lid = eng.enclosing_loop(fr)
+    eng.event(st, 'recv', receiver=v, fn=fr.body.path, loop=lid, timed=True)
+    return ite(('iterhas', lid, ('recv_timed', v)), OK(('iterval', lid, ('recv', v))), ERR(('app', 'RecvTimeoutError', ())))
+
+
+for _n in ('std::time::Duration::from_millis', 'std::time::Duration::from_secs', 'std::time::Duration::from_micros',
+           'std::time::Duration::from_nanos', 'std::time::Duration::from_secs_f64'):
+    MODELS[_n] = (lambda eng, st, fr, t, args, dest, target: ('app', 'Duration', (eng.purify(st, args[0]),)))
+
+
+@model('<std::collections::HashMap<K, V, S, A> as std::clone::Clone>::clone_from',
+       '<std::collections::BTreeMap<K, V, A> as std::clone::Clone>::clone_from', '<std::vec::Vec<T, A> as std::clone::Clone>::clone_from')
+def _clone_from(eng, st, fr, t, args, dest, target):
+    r, p = ptr_of(eng, st, args[0])
+    src = deref(eng, st, args[1])
+    eng.store(st, r, p, src)
+    return UNIT
+
+
+@model('std::iter::successors')
+def _iter_successors(eng, st, fr, t, args, dest, target):
+    return ('iter', 'successors', args[0], args[1])
+
+
+def _successors_next(eng, st, fr, t, args, dest, target):
+    r, p = ptr_of(eng, st, args[0])
+    itv = eng.force(st, eng.load(st, r, p))
+    if not (itv[0] == 'iter' and itv[1] == 'successors'):
+        return _next_generic(eng, st, fr, t, args, dest, target)
+    vn, cur = variant_of(eng, st, itv[2], OPT)
+    if vn != 'Some':
+        return NONE
+    v = payload(eng, st, cur, 'Some')
+    ref = mk_ref(eng.temp(st, v), ())
+
+    def cont(st, fr2, dest_, target_, rv):
+        eng.store(st, r, p, ('iter', 'successors', rv, itv[3]))
+        eng.finish_call(st, fr2, dest, target, SOME(v))
+    eng.call_callable(st, itv[3], [ref], ('seq', dest, target, cont))
+    return DEFER
+
+
+MODELS['<std::iter::Successors<T, F> as std::iter::Iterator>::next'] = _successors_next
 
 
 @model("std::thread::Scope::<'scope, 'env>::spawn")
